@@ -1,4 +1,5 @@
 import SqlgrepModel.Model.Lex
+import SqlgrepModel.Lemmas.LexPos
 /-
 `TokenLocation::extract_near`: every slice index it computes is in range — for every line, every location —
 because each recorded word `(start, length)` satisfies `start + length ≤ line length`.
@@ -102,5 +103,68 @@ theorem extractNear_text (o : Oracles) (loc : Loc) (text : List Char) : ∃ s, e
   · rename_i line _
     exact nearFrom_text line loc.column _ (wordsOf_bounds o line) _ 0 (wordsOf_bounds o line)
   · exact ⟨[], rfl⟩
+
+
+/-! ### `str::lines()` against the split at `\n` -/
+
+/-- a line ended by `\n` loses one `\r` directly before it -/
+def stripCr (l : List Char) : List Char :=
+  match l.reverse with
+  | '\r' :: r => r.reverse
+  | _ => l
+
+/-- what `str::lines()` makes of `(complete lines, rest)` -/
+def assemble (s : List (List Char) × List Char) : List (List Char) :=
+  s.1.map stripCr ++ (if s.2.isEmpty then [] else [s.2])
+
+theorem foldl_splitStep_prefix (cs : List Char) : ∀ (d0 : List (List Char)) (c : List Char),
+    cs.foldl splitStep (d0, c) = (d0 ++ (cs.foldl splitStep ([], c)).1, (cs.foldl splitStep ([], c)).2) := by
+  induction cs with
+  | nil => intro d0 c; simp
+  | cons x cs ih =>
+    intro d0 c
+    simp only [List.foldl_cons, splitStep]
+    split
+    · rw [ih (d0 ++ [c]) [], ih ([] ++ [c]) []]
+      simp
+    · rw [ih d0 (c ++ [x])]
+
+theorem linesGo_eq (cs : List Char) : ∀ cur : List Char,
+    linesGo cs cur = assemble (cs.foldl splitStep ([], cur.reverse)) := by
+  induction cs with
+  | nil =>
+    intro cur
+    simp only [linesGo, List.foldl_nil, assemble, List.map_nil, List.nil_append, List.isEmpty_reverse]
+  | cons x cs ih =>
+    intro cur
+    simp only [linesGo, List.foldl_cons, splitStep]
+    split
+    · rw [ih [], foldl_splitStep_prefix cs ([] ++ [cur.reverse]) []]
+      simp only [assemble, List.nil_append, List.reverse_nil, List.map_append, List.map_cons, List.map_nil,
+        List.append_assoc, List.cons_append]
+      congr 1
+      unfold stripCr
+      rw [List.reverse_reverse]
+      cases cur with
+      | nil => rfl
+      | cons c r =>
+        by_cases hc : c = '\r'
+        · subst hc; rfl
+        · have e1 : (match c :: r with | '\r' :: r => r.reverse | _ => (c :: r).reverse) = (c :: r).reverse := by
+            split
+            · rename_i heq; cases heq; exact absurd rfl hc
+            · rfl
+          rw [e1]
+          split
+          · rename_i heq; cases heq; exact absurd rfl hc
+          · rfl
+    · rw [ih (x :: cur)]
+      simp
+
+/-- **`str::lines()` in terms of the split at `\n`**: the complete lines with a `\r` before the `\n` removed, then
+the rest of the text if it is not empty -/
+theorem lines_eq (text : List Char) : lines text = assemble (splitFold text) := by
+  unfold lines splitFold
+  rw [linesGo_eq]; rfl
 
 end Sqlgrep.Lex
